@@ -40,15 +40,37 @@ def basePositive : Bool := baseQ.all (fun p => decide (0 < p.2))
     tolerance of 1 at both ends of the enclosure of π (hence, being monotone in π, at π) -/
 def numRelationOk (r : NumRelation) : Bool :=
   bound r.lhs && bound r.rhs &&
-  match norm (closeRel r.lhs), norm (closeRel r.rhs) with
-  | some m, some n =>
-    n.coef != 0 && [piLo, piHi].all (fun p =>
-      match (m.quot n).evalAtPi p baseQ with
-      | some v => within v 1 r.cls.tol
-      | none => false)
+  match ratioAtPi baseQ piLo (closeRel r.lhs) (closeRel r.rhs),
+        ratioAtPi baseQ piHi (closeRel r.lhs) (closeRel r.rhs) with
+  | some v1, some v2 => within v1 1 r.cls.tol && within v2 1 r.cls.tol
   | _, _ => false
 
 def numRelationsOk : Bool := numRelations.all numRelationOk
+
+/-- the double `d` of a table cell is the value of the cell's symbolic definition `e` (an
+    expression over base constants): same sign, and `e²` evaluated exactly at both ends of the
+    enclosure of π is within `2·2⁻⁴⁵` of `d²` -/
+def cellMatchesDouble (e : CExpr) (d : Rat) : Bool :=
+  match squareAtPi baseQ piLo e, squareAtPi baseQ piHi e with
+  | some s1, some s2 =>
+    decide (0 < coefOf e * d) && within s1 (d * d) (2 * guiseTol) && within s2 (d * d) (2 * guiseTol)
+  | _, _ => false
+
+/-- every value cell of `physical_constants`: the stored double is its symbolic definition -/
+def constCellsMatchDoubles : Bool :=
+  constTable.all fun c =>
+    match constCells.lookup c.spec.name with
+    | some e => cellMatchesDouble (e.subst closedRatios) (ratOfBits c.value)
+    | none => false
+
+/-- every scale cell of `default_unit_symbol_lut` (outside the literal list of non-monomial
+    cells): the stored double is its symbolic definition -/
+def unitCellsMatchDoubles : Bool :=
+  (defaultLut Rat).all fun p =>
+    nonMonomialUnitCells.contains p.1 ||
+    match unitCells.lookup p.1 with
+    | some e => cellMatchesDouble (e.subst closedRatios) p.2.scale
+    | none => false
 
 /-! ### materialised layer -/
 
@@ -132,9 +154,16 @@ def allSpaces (f : List MatRow → Bool) : Bool := spaces.all fun s => f s.2
 
 /-! ### the unit table against the constants -/
 
-/-- the table row a namespace key comes from -/
+/-- the table row a bare (unsuffixed) namespace key comes from -/
 def constOfKey (k : String) : Option ConstRow :=
-  ((constTable.zip blocks).find? fun p => p.2.any fun w => w.1 == k).map (·.1)
+  ((constTable.zip blocks).find? fun p => p.2.any fun w => w.2 == Guise.plain && w.1 == k).map (·.1)
+
+/-- no unit symbol looks like a suffixed guise (`…_mks`, `…_cgs`, `hmks`, `hcgs`), so the bare
+    keys are all the namespace keys a unit symbol can coincide with -/
+def unitSymbolsUnsuffixed : Bool :=
+  (defaultLut Rat).all fun p =>
+    let cs := p.1.toList.reverse
+    !(cs.take 4 == ['s', 'k', 'm', '_'] || cs.take 4 == ['s', 'g', 'c', '_'] || p.1 == "hmks" || p.1 == "hcgs")
 
 /-- a unit symbol that is also a constant denotes the same quantity — unless it is a declared
     homonym, which must then really be a different kind of quantity -/
@@ -146,7 +175,7 @@ def unitVsConstOk (k : String) (e : Entry Rat) : Bool :=
     else e.dim == c.spec.dim && e.offset == 0 && within e.scale c.mag guiseTol
 
 def unitAndConstantAgree (excl : List String) : Bool :=
-  (defaultLut Rat).all fun p => excl.contains p.1 || unitVsConstOk p.1 p.2
+  (defaultLut Rat).all fun p => unitVsConstOk p.1 p.2 || excl.contains p.1
 
 def unitVsConstOkByName (k : String) : Bool :=
   match (defaultLut Rat).find? k with
